@@ -53,10 +53,23 @@ class Precondition:
                 operand.to_pddl(decimal_digits) for operand in numeric_expressions
             ]
 
-        else:
+        elif self.binary_operator == "and":
             numeric_preconditions = self._simplify_numeric_preconditions(
                 numeric_expressions, decimal_digits
             )
+
+        else:
+            # an equality of a disjunction says nothing about the other disjuncts, so nothing is eliminated: every
+            # condition is simplified on its own, and one that always holds is kept as it is (omitting it would
+            # remove "true" from the disjunction).
+            numeric_preconditions = []
+            for expression in numeric_expressions:
+                simplified = self._simplify_numeric_preconditions(
+                    [expression], decimal_digits
+                )
+                numeric_preconditions.extend(
+                    simplified if simplified else [expression.to_pddl(decimal_digits)]
+                )
 
         discrete_preconditions.sort()
         numeric_preconditions = list(set(numeric_preconditions))  # remove duplicates
